@@ -158,7 +158,63 @@ fn recs_json(ms: &[MatchRec]) -> Value {
     json!(ms)
 }
 
+/// What the accessors of a Match report, in code point indices ([-1,-1] = None).
+fn api_record(m: &regress::Match, hay: &Hay, names: &[String]) -> Value {
+    let mut bad = Vec::new();
+    let conv = |r: Option<std::ops::Range<usize>>, bad: &mut Vec<String>| -> [i64; 2] {
+        match r {
+            None => [-1, -1],
+            Some(r) => {
+                if r.end > hay.text.len() || r.start > r.end || !hay.text.is_char_boundary(r.start) || !hay.text.is_char_boundary(r.end) {
+                    bad.push(format!("accessor range {}..{}", r.start, r.end));
+                    [-3, -3]
+                } else {
+                    [hay.byte_to_cp[r.start], hay.byte_to_cp[r.end]]
+                }
+            }
+        }
+    };
+    let n = m.captures.len();
+    let group: Vec<[i64; 2]> = (0..=n + 1).map(|i| conv(m.group(i), &mut bad)).collect();
+    let groups: Vec<[i64; 2]> = m.groups().map(|g| conv(g, &mut bad)).collect();
+    let groups_len_hint = m.groups().len();
+    let mut probe: Vec<String> = names.iter().filter(|s| !s.is_empty()).cloned().collect();
+    probe.sort();
+    probe.dedup();
+    probe.push("zz".to_string());
+    probe.push(String::new());
+    let named: Vec<Value> = probe
+        .iter()
+        .map(|nm| {
+            let cps: Vec<u32> = nm.chars().map(|c| c as u32).collect();
+            json!([cps, conv(m.named_group(nm), &mut bad)])
+        })
+        .collect();
+    let named_groups: Vec<Value> = m
+        .named_groups()
+        .map(|(nm, r)| {
+            let cps: Vec<u32> = nm.chars().map(|c| c as u32).collect();
+            json!([cps, conv(r, &mut bad)])
+        })
+        .collect();
+    let named_groups_len_hint = m.named_groups().len();
+    json!({
+        "range": conv(Some(m.range()), &mut bad),
+        "startend": [hay.byte_to_cp[m.start().min(hay.text.len())], hay.byte_to_cp[m.end().min(hay.text.len())]],
+        "as_str_ok": m.as_str(&hay.text) == &hay.text[m.range()],
+        "ncaps": n,
+        "group": group,
+        "groups": groups,
+        "groups_len": groups_len_hint,
+        "named": named,
+        "named_groups": named_groups,
+        "named_groups_len": named_groups_len_hint,
+        "bad": bad,
+    })
+}
+
 pub struct SemOpts {
+    pub api: bool,
     pub ascii: bool,
     pub arbitrary: bool,
     pub progs: bool,
@@ -237,6 +293,16 @@ pub fn run_case(idx: usize, case: &Value, o: &SemOpts) -> (Value, Option<Value>,
     let mut costs: Vec<Value> = Vec::new();
     let mut traces: Vec<Value> = Vec::new();
     let mut nvariants = 0usize;
+    let mut api: Vec<Value> = Vec::new();
+    let names: Vec<String> = case
+        .get("names")
+        .and_then(|v| v.as_array())
+        .map(|a| {
+            a.iter()
+                .map(|n| n.as_array().unwrap().iter().map(|c| char::from_u32(c.as_u64().unwrap() as u32).unwrap()).collect())
+                .collect()
+        })
+        .unwrap_or_default();
 
     for (hi, hcps) in hays.iter().enumerate() {
         let Some(hay) = Hay::new(hcps) else {
@@ -275,6 +341,18 @@ pub fn run_case(idx: usize, case: &Value, o: &SemOpts) -> (Value, Option<Value>,
                 fails.push(json!({"h": hi, "s": s, "var": "api", "what": "more matches than positions"}));
             }
             let prim_recs: Vec<MatchRec> = prim.iter().map(|m| convert(m, &hay, &mut badv)).collect();
+            if s == 0 && o.api {
+                let recs: Vec<Value> = match catch_unwind(AssertUnwindSafe(|| {
+                    prim.iter().map(|m| api_record(m, &hay, &names)).collect::<Vec<Value>>()
+                })) {
+                    Ok(v) => v,
+                    Err(e) => {
+                        fails.push(json!({"h": hi, "s": 0, "var": "accessors", "what": panic_msg(e)}));
+                        Vec::new()
+                    }
+                };
+                api.push(Value::Array(recs));
+            }
             if s == 0 {
                 bfirst.push(match prim.first() {
                     Some(m) => json!(byte_rec(m)),
@@ -382,6 +460,9 @@ pub fn run_case(idx: usize, case: &Value, o: &SemOpts) -> (Value, Option<Value>,
     rec.insert("bad".into(), Value::Array(bad));
     rec.insert("fails".into(), Value::Array(fails));
     rec.insert("nvar".into(), json!(nvariants));
+    if o.api {
+        rec.insert("api".into(), Value::Array(api));
+    }
     vm.insert("bfirst".into(), Value::Array(bfirst));
     if o.cost {
         rec.insert("cost".into(), Value::Array(costs));
@@ -398,6 +479,7 @@ pub fn main(args: &[String]) -> i32 {
     let mut shard = (0usize, 1usize);
     let mut skip = 0usize;
     let mut o = SemOpts {
+        api: false,
         ascii: true,
         arbitrary: false,
         progs: false,
@@ -421,6 +503,7 @@ pub fn main(args: &[String]) -> i32 {
             "--no-ascii" => o.ascii = false,
             "--arbitrary" => o.arbitrary = true,
             "--progs" => o.progs = true,
+            "--api" => o.api = true,
             "--cost" => o.cost = true,
             "--trace-every" => o.trace_every = it.next().unwrap().parse().unwrap(),
             "--fuel" => o.fuel = it.next().unwrap().parse().unwrap(),
